@@ -8,7 +8,11 @@ only when the route table does not compile (no such container exists).  `lower` 
 for every origin string, allowed list, cookie setting, method and route table.
 
 The predicate of the property is `Spec.c08Holds` (Spec/Cors.lean); the driver evaluates it on every
-real observation, `C08_spec` proves it of the model's outcome.
+real observation, `C08_spec` proves it of the model's outcome — in front of an ARBITRARY rest of the
+container (`Cors.Rest`, Lemmas/Cors.lean): "processed exactly as if the filter were absent" is
+derived from the model for every such rest (`C08_as_if_absent`); for allowed origins the facts about
+the code behind the filter that only the harness's twin comparison can establish are an explicit
+hypothesis (`Cors.RestOK`).
 -/
 import Restful.Lemmas.Cors
 import Restful.Lemmas.StateShape
@@ -93,26 +97,101 @@ theorem C08_transparent (cc : CorsCfg) (tbl : Config) (rq : CorsReq)
   · rw [h]; simp [Spec.originAllowed]
   · exact h
 
-/-- The property's predicate holds of the model's outcome, for every input. -/
-theorem C08_spec (cc : CorsCfg) (tbl : Config) (rq : CorsReq) (out : Out)
-    (h : corsOut lower E cc tbl rq = some out) :
-    Spec.c08Holds lower cc rq (obsOf out) = true := by
-  unfold Spec.c08Holds obsOf Spec.sameAsTwin Spec.restSame
+/-- Connecting `C08_transparent` to "processed exactly as if the filter were absent" — DERIVED, not
+    assumed: let `k` be ANY rest of the container (later filters, route function or the router's
+    error answer; `Cors.Rest`, an arbitrary function of the header lines already on the response when
+    control arrives).  For a request without Origin or from a disallowed origin the exchange of the
+    container with the filter EQUALS the exchange of the twin without it (`k []`), so the harness's
+    comparison of the two finds no extra header, no missing header, the same status, body and log. -/
+theorem C08_as_if_absent (cc : CorsCfg) (tbl : Config) (rq : CorsReq)
+    (h : rq.origin = [] ∨ Spec.originAllowed lower cc rq.origin = false) (k : Rest) :
+    ∃ out, corsOut lower E cc tbl rq = some out ∧ withFilter k out = k [] ∧
+      Spec.sameAsTwin (obsOf k out) = true :=
+  ⟨⟨[], true⟩, C08_transparent lower E cc tbl rq h, rfl, sameAsTwin_observe_self (k [])⟩
+
+/-- What the filter does to an exchange, for every request and every rest `k` of the container:
+    EITHER it passes control on, and then it has added headers and done nothing else (the exchange is
+    the rest of the chain started on a response carrying the added lines), OR it answers alone — and
+    that only for a preflight from an allowed origin. -/
+theorem C08_adds_headers_only (cc : CorsCfg) (tbl : Config) (rq : CorsReq) (out : Out)
+    (h : corsOut lower E cc tbl rq = some out) (k : Rest) :
+    (out.passOn = true ∧ withFilter k out = k out.added) ∨
+    (out.passOn = false ∧ Spec.isPreflight rq = true ∧ Spec.originAllowed lower cc rq.origin = true ∧
+      withFilter k out = answered out.added) := by
   cases ha : Spec.originAllowed lower cc rq.origin with
   | false =>
     rw [corsOut_not_allowed lower E cc tbl rq ha] at h
     cases h
-    simp [Spec.valuesOf]
+    exact Or.inl ⟨rfl, rfl⟩
   | true =>
-    by_cases hne : out.added = []
-    · simp [hne, Spec.valuesOf]
-    · obtain ⟨h1, h2, h3⟩ := C08_echo lower E cc tbl rq out h hne
-      have hc : ((Spec.valuesOf hAllowCredentials out.added).isEmpty || cc.cookies) = true := by
-        cases hv : Spec.valuesOf hAllowCredentials out.added with
-        | nil => simp
-        | cons a as => simp [h2 (by rw [hv]; simp)]
-      simp only [h1, hc, h3, beq_self_eq_true, Bool.or_true, Bool.and_true, Bool.true_and, decide_true,
-        Bool.true_or]
+    cases hp : Spec.isPreflight rq with
+    | false =>
+      rw [corsOut_actual lower E cc tbl rq ha hp] at h
+      cases h
+      exact Or.inl ⟨rfl, rfl⟩
+    | true =>
+      obtain ⟨hpass, _⟩ := corsOut_preflight lower E cc tbl rq out ha hp h
+      exact Or.inr ⟨hpass, rfl, rfl, withFilter_answered k out hpass⟩
+
+/-- When the filter chain is not reached at all (the ServeMux answered first), the filter is not
+    called: real container and twin run the same code on the same request.  The predicate then
+    demands the twin's response, and an exchange compared with itself has it. -/
+theorem C08_not_reached (cc : CorsCfg) (rq : CorsReq) (e : Exch) :
+    Spec.c08Holds lower cc rq { observe e e with reached := false } = true := by
+  have h := sameAsTwin_observe_self e
+  simpa [Spec.c08Holds, Spec.sameAsTwin, Spec.restSame] using h
+
+/-- The property's predicate holds of the model's outcome, for every input and in front of every
+    rest `k` of the container.
+
+    The observation is `obsOf k out = observe (withFilter k out) (k [])`: the exchange with the filter
+    compared, the way the harness compares, with the exchange of the twin.  NOTHING about the twin
+    comparison is put in by hand:
+    * for a request without Origin or from a disallowed origin the hypothesis `hk` is void —
+      "exactly as if the filter were absent" is derived for arbitrary `k` (`C08_as_if_absent`);
+    * for an allowed origin the predicate reads `extra` only, and `extra` is the filter's `added`
+      provided the code behind the filter keeps those lines and sets no CORS header itself
+      (`RestOK k`) — a hypothesis about user code that only the harness can check, and does. -/
+theorem C08_spec (cc : CorsCfg) (tbl : Config) (rq : CorsReq) (out : Out)
+    (h : corsOut lower E cc tbl rq = some out) (k : Rest)
+    (hk : Spec.originAllowed lower cc rq.origin = true → RestOK k) :
+    Spec.c08Holds lower cc rq (obsOf k out) = true := by
+  rcases Bool.eq_false_or_eq_true (Spec.originAllowed lower cc rq.origin) with ha | ha
+  · -- allowed
+    have hk := hk ha
+    rcases Bool.eq_false_or_eq_true (Spec.isPreflight rq) with hp | hp
+    · -- preflight: answered alone; when granted, the echo
+      obtain ⟨hpass, hadd⟩ := corsOut_preflight lower E cc tbl rq out ha hp h
+      have hnames : ∀ x ∈ out.added, isCorsName x.1 = true := by
+        rw [hadd]
+        split
+        · exact preflightGrant_corsNames cc _ rq
+        · intro x hx; cases hx
+      obtain ⟨hex, _, hre⟩ := observe_answered k hk out.added hnames
+      have hobs : obsOf k out = observe (answered out.added) (k []) := by
+        rw [obsOf, withFilter_answered k out hpass]
+      rw [Spec.c08Holds, hobs, hre, ha, hp, hex]
+      by_cases hne : out.added = []
+      · simp [hne]
+      · obtain ⟨h1, h2, h3⟩ := C08_echo lower E cc tbl rq out h hne
+        have hc : ((Spec.valuesOf hAllowCredentials out.added).isEmpty || cc.cookies) = true := by
+          cases hv : Spec.valuesOf hAllowCredentials out.added with
+          | nil => simp
+          | cons a as => simp [h2 (by rw [hv]; simp)]
+        simp [h1, hc, h3]
+    · -- actual request: passed on with exactly the actual-request headers
+      rw [corsOut_actual lower E cc tbl rq ha hp] at h
+      cases h
+      obtain ⟨hperm, _, _, hre⟩ := observe_passOn k hk (Spec.actualHeaders cc rq)
+      have hobs : obsOf k ⟨Spec.actualHeaders cc rq, true⟩ = observe (k (Spec.actualHeaders cc rq)) (k []) := rfl
+      rw [Spec.c08Holds, hobs, hre, ha, hp]
+      simpa using List.isPerm_iff.mpr hperm
+  · -- no Origin / not allowed: derived, no hypothesis on `k`
+    rw [corsOut_not_allowed lower E cc tbl rq ha] at h
+    cases h
+    have hobs : obsOf k ⟨[], true⟩ = observe (k []) (k []) := rfl
+    rw [Spec.c08Holds, ha, hobs]
+    simpa using sameAsTwin_observe_self (k [])
 
 /-- non-vacuity: a mixed-case origin equal to a whole entry ignoring case is granted, echoed
     verbatim, with credentials; an origin that merely has an entry as a prefix is not. -/
@@ -159,34 +238,100 @@ def evil : CorsReq := rq "http://good.example.evil.test"
 def outGood : Out :=
   ⟨[(hAllowOrigin, "HTTP://Good.Example".toList), (hAllowCredentials, "true".toList), (hMaxAge, "3600".toList)], true⟩
 
-example : corsOut toLowerAscii env cc tbl good = some outGood ∧ outGood.added ≠ [] := by decide
+/-- a preflight from the same origin for GET at `/a` (computed methods, no requested header) -/
+def pre : CorsReq := { method := "OPTIONS".toList, path := "/a".toList, origin := "HTTP://Good.Example".toList, acrm := "GET".toList }
+def outPre : Out :=
+  ⟨[(hAllowMethods, "GET".toList), (hAllowHeaders, []), (hAllowOrigin, "HTTP://Good.Example".toList),
+    (hAllowCredentials, "true".toList), (hMaxAge, "3600".toList)], false⟩
+
+/-- a rest of the container as the harness builds it: the logging filter behind the CORS filter,
+    then the route function, which ADDS an `X-Handler` line and writes status and body -/
+def k : Rest := exRest "0".toList 200 "route 0".toList ["h:0:0".toList]
+/-- a rest of the container that does NOT satisfy `RestOK`: it drops whatever was on the response -/
+def kDrop : Rest := fun _ => ⟨[("X-Handler".toList, "0".toList)], 200, "route 0".toList, ["post".toList]⟩
+
+example : corsOut toLowerAscii env cc tbl good = some outGood ∧ outGood.added ≠ [] ∧
+    corsOut toLowerAscii env cc tbl pre = some outPre := by decide
 /-- `C08_grant`, `C08_echo`, `C08_spec`: hypotheses `h` and `hne` hold of the granted request -/
 example := C08_grant toLowerAscii env cc tbl good outGood (by decide) (by decide)
 example := C08_echo toLowerAscii env cc tbl good outGood (by decide) (by decide)
-example : Spec.c08Holds toLowerAscii cc good (obsOf outGood) = true :=
-  C08_spec toLowerAscii env cc tbl good outGood (by decide)
+example : Spec.c08Holds toLowerAscii cc good (obsOf k outGood) = true :=
+  C08_spec toLowerAscii env cc tbl good outGood (by decide) k (fun _ => exRest_ok _ _ _ _)
+example : Spec.c08Holds toLowerAscii cc pre (obsOf k outPre) = true :=
+  C08_spec toLowerAscii env cc tbl pre outPre (by decide) k (fun _ => exRest_ok _ _ _ _)
+/-- for the disallowed origin `C08_spec` needs nothing of the rest of the container: here with a rest
+    that violates `RestOK` (the hypothesis `hk` is void — its premise is false) -/
+example : Spec.c08Holds toLowerAscii cc evil (obsOf kDrop ⟨[], true⟩) = true :=
+  C08_spec toLowerAscii env cc tbl evil ⟨[], true⟩ (by decide) kDrop (fun h => absurd h (by decide))
+/-- … while for the allowed origin the hypothesis is needed: behind `kDrop` the grant is lost and the
+    predicate is false of that observation -/
+example : Spec.c08Holds toLowerAscii cc good (obsOf kDrop outGood) = false := by decide
 /-- `C08_no_partial_match`: no predicate, a non-empty list, no entry is the wildcard or the whole origin -/
 example : corsOut toLowerAscii env cc tbl evil = some ⟨[], true⟩ :=
   C08_no_partial_match toLowerAscii env cc tbl evil rfl (by decide) (by decide)
-/-- `C08_transparent`, both alternatives of its hypothesis -/
+/-- `C08_transparent`, both alternatives of its hypothesis; `C08_as_if_absent`, `C08_adds_headers_only`
+    (both alternatives), `C08_not_reached` -/
 example := C08_transparent toLowerAscii env cc tbl evil (.inr (by decide))
 example := C08_transparent toLowerAscii env cc tbl (rq "") (.inl rfl)
+example := C08_as_if_absent toLowerAscii env cc tbl evil (.inr (by decide)) kDrop
+example := C08_as_if_absent toLowerAscii env cc tbl (rq "") (.inl rfl) k
+example := C08_adds_headers_only toLowerAscii env cc tbl good outGood (by decide) k
+example := C08_adds_headers_only toLowerAscii env cc tbl pre outPre (by decide) k
+example := C08_not_reached toLowerAscii cc good (k [])
 
-def oGood : Spec.CorsObs := obsOf outGood
-def oNone : Spec.CorsObs := obsOf ⟨[], true⟩
+/-- the observations spelled out: what `obsOf` computes from the two exchanges -/
+def oGood : Spec.CorsObs :=
+  { reached := true, extra := outGood.added, missing := 0, status := 200, twinStatus := 200,
+    bodySame := true, logSame := true, later := true }
+def oPre : Spec.CorsObs :=
+  { reached := true, extra := outPre.added, missing := 1, status := 200, twinStatus := 200,
+    bodySame := false, logSame := false, later := false }
+def oNone : Spec.CorsObs :=
+  { reached := true, extra := [], missing := 0, status := 200, twinStatus := 200,
+    bodySame := true, logSame := true, later := true }
+example : obsOf k outGood = oGood ∧ obsOf k outPre = oPre ∧ obsOf k ⟨[], true⟩ = oNone ∧
+    obsOf kDrop ⟨[], true⟩ = oNone := by decide
 
-/-- `Spec.c08Holds` is not trivially true.  For the allowed origin it is falsified by: `*` instead of
-    the origin; the origin in another spelling (not verbatim); Allow-Origin twice; credentials without
-    Allow-Origin; credentials that are not configured.  For the disallowed origin (and for no Origin)
-    it accepts the twin's response only: falsified by an Allow-Origin echo, by any other CORS header,
-    by another status, another log, another body, a header missing. -/
+/-- `Spec.c08Holds` is not trivially true.
+
+    ACTUAL request from the allowed origin (the grant is due, exactly as configured): accepted in any
+    order; falsified by
+    (iii) no header at all, and every configured header except Allow-Origin;
+    (iv) Allow-Origin lower-cased (the spelling of the list entry instead of the request's);
+    (ii) Allow-Origin twice;
+    `*` instead of the origin; credentials configured but missing; credentials that are not
+    configured; Max-Age missing, or with another value; an Expose-Headers that is not configured.
+
+    PREFLIGHT from the allowed origin (whether it is granted is C09's): accepts the grant and the
+    refusal; a grant is falsified by (iv) the lower-cased origin, (ii) Allow-Origin twice, no
+    Allow-Origin, credentials that are not configured.
+
+    DISALLOWED origin / no Origin: accepts the twin's response only — falsified by an Allow-Origin
+    echo, by any other CORS header, by another status, another log, another body, a header missing.
+    The same when the filter chain was not reached. -/
 example :
     Spec.c08Holds toLowerAscii cc good oGood = true ∧
-    Spec.c08Holds toLowerAscii cc good { oGood with extra := [(hAllowOrigin, "*".toList)] } = false ∧
-    Spec.c08Holds toLowerAscii cc good { oGood with extra := [(hAllowOrigin, "http://good.example".toList)] } = false ∧
+    Spec.c08Holds toLowerAscii cc good { oGood with extra := oGood.extra.reverse } = true ∧
+    Spec.c08Holds toLowerAscii cc good { oGood with extra := [] } = false ∧
+    Spec.c08Holds toLowerAscii cc good { oGood with extra := [(hAllowCredentials, "true".toList), (hMaxAge, "3600".toList)] } = false ∧
+    Spec.c08Holds toLowerAscii cc good { oGood with extra :=
+      [(hAllowOrigin, "http://good.example".toList), (hAllowCredentials, "true".toList), (hMaxAge, "3600".toList)] } = false ∧
     Spec.c08Holds toLowerAscii cc good { oGood with extra := oGood.extra ++ [(hAllowOrigin, "HTTP://Good.Example".toList)] } = false ∧
-    Spec.c08Holds toLowerAscii cc good { oGood with extra := [(hAllowCredentials, "true".toList)] } = false ∧
+    Spec.c08Holds toLowerAscii cc good { oGood with extra :=
+      [(hAllowOrigin, "*".toList), (hAllowCredentials, "true".toList), (hMaxAge, "3600".toList)] } = false ∧
+    Spec.c08Holds toLowerAscii cc good { oGood with extra := [(hAllowOrigin, good.origin), (hMaxAge, "3600".toList)] } = false ∧
     Spec.c08Holds toLowerAscii ccNoCookies good oGood = false ∧
+    Spec.c08Holds toLowerAscii cc good { oGood with extra := [(hAllowOrigin, good.origin), (hAllowCredentials, "true".toList)] } = false ∧
+    Spec.c08Holds toLowerAscii cc good { oGood with extra :=
+      [(hAllowOrigin, good.origin), (hAllowCredentials, "true".toList), (hMaxAge, "60".toList)] } = false ∧
+    Spec.c08Holds toLowerAscii cc good { oGood with extra := (hExposeHeaders, "X-A".toList) :: oGood.extra } = false ∧
+    Spec.c08Holds toLowerAscii cc pre oPre = true ∧
+    Spec.c08Holds toLowerAscii cc pre { oPre with extra := [] } = true ∧
+    Spec.c08Holds toLowerAscii cc pre { oPre with extra :=
+      [(hAllowMethods, "GET".toList), (hAllowHeaders, []), (hAllowOrigin, "http://good.example".toList)] } = false ∧
+    Spec.c08Holds toLowerAscii cc pre { oPre with extra := oPre.extra ++ [(hAllowOrigin, pre.origin)] } = false ∧
+    Spec.c08Holds toLowerAscii cc pre { oPre with extra := [(hAllowMethods, "GET".toList), (hAllowHeaders, [])] } = false ∧
+    Spec.c08Holds toLowerAscii ccNoCookies pre oPre = false ∧
     Spec.c08Holds toLowerAscii cc evil oNone = true ∧
     Spec.c08Holds toLowerAscii cc evil { oNone with extra := [(hAllowOrigin, evil.origin)] } = false ∧
     Spec.c08Holds toLowerAscii cc evil { oNone with extra := [(hMaxAge, "3600".toList)] } = false ∧
@@ -194,7 +339,30 @@ example :
     Spec.c08Holds toLowerAscii cc evil { oNone with logSame := false } = false ∧
     Spec.c08Holds toLowerAscii cc evil { oNone with bodySame := false } = false ∧
     Spec.c08Holds toLowerAscii cc (rq "") { oNone with extra := [(hAllowOrigin, [])] } = false ∧
-    Spec.c08Holds toLowerAscii cc (rq "") { oNone with missing := 1 } = false := by
+    Spec.c08Holds toLowerAscii cc (rq "") { oNone with missing := 1 } = false ∧
+    Spec.c08Holds toLowerAscii cc good { oNone with reached := false } = true ∧
+    Spec.c08Holds toLowerAscii cc good { oGood with reached := false } = false := by
+  decide
+
+/-- The observations of the review, each REJECTED by `Spec.c08Holds`:
+    (ii) a grant with Allow-Origin twice (actual request; preflight);
+    (iii) an actual request from an allowed origin without Allow-Origin (no header at all — accepted
+        before the predicate was strengthened; every other configured header);
+    (iv) Allow-Origin lower-cased: the request said `HTTP://Good.Example` (actual request; preflight).
+    ((i) — a preflight that must be granted and is not — is C09's clause: `c08Holds` accepts a refused
+    preflight from an allowed origin, `c09Holds` decides whether the refusal was right.) -/
+example :
+    Spec.c08Holds toLowerAscii cc good { oGood with extra := oGood.extra ++ [(hAllowOrigin, good.origin)] } = false ∧
+    Spec.c08Holds toLowerAscii cc pre { oPre with extra := oPre.extra ++ [(hAllowOrigin, pre.origin)] } = false ∧
+    Spec.c08Holds toLowerAscii cc good { oGood with extra := [] } = false ∧
+    Spec.c08Holds toLowerAscii cc good { oGood with extra := [(hAllowCredentials, "true".toList), (hMaxAge, "3600".toList)] } = false ∧
+    Spec.c08Holds toLowerAscii cc good { oGood with extra :=
+      [(hAllowOrigin, toLowerAscii good.origin), (hAllowCredentials, "true".toList), (hMaxAge, "3600".toList)] } = false ∧
+    Spec.c08Holds toLowerAscii cc pre { oPre with extra :=
+      [(hAllowMethods, "GET".toList), (hAllowHeaders, []), (hAllowOrigin, toLowerAscii pre.origin),
+       (hAllowCredentials, "true".toList), (hMaxAge, "3600".toList)] } = false ∧
+    toLowerAscii good.origin ≠ good.origin ∧
+    Spec.c08Holds toLowerAscii cc pre { oPre with extra := [] } = true := by
   decide
 
 end C08Example
